@@ -458,7 +458,7 @@ func rebuildSig(err error) string {
 func isCrashPoint(p string) bool {
 	switch {
 	case strings.HasPrefix(p, "create."), strings.HasPrefix(p, "update."), strings.HasPrefix(p, "delete."), strings.HasPrefix(p, "init."),
-		strings.HasPrefix(p, "updateIndex."), p == "rebuild.afterDrop", p == "handleChange.afterDo", p == "crash.op", p == "badger.commit", p == "tq.next":
+		strings.HasPrefix(p, "updateIndex."), p == "rebuild.afterDrop", p == "handleChange.afterDo", p == "crash.op", p == "badger.commit", p == "tq.next", p == "badger.write":
 		return true
 	}
 	return false
